@@ -293,6 +293,7 @@ def extra_tasks(pid):
         ts += [('contracts.fanout_common', 'routed', (m, 'other')) for m in fc.ROUTED]
         ts += [('contracts.traces', 'operator_forms_retry', ())]
         ts += [('contracts.bulk', 'bulk_task', ('C14', k)) for k in ('clear', 'evict', 'expire')]
+        ts += [('contracts.bulk', 'cull_task', ('C14', 'least-recently-stored'))]
     if pid == 'C07':
         ts += [('contracts.traces', 'exclusive_create', ())]
     return ts
